@@ -193,6 +193,11 @@ func (vs *ValidatorStore) ExecuteAllegationTracker(ctx *ValidatorContext, active
 				logger.Errorf("Validator: %s not found\n", addrHuman)
 				continue
 			}
+			// the stake may have moved to another stake address in this block: the penalty is taken from the
+			// account that holds it now, like the amount it is computed from
+			if current, cerr := vs.Get(validator.Address); cerr == nil && current.StakeAddress != nil {
+				validator.StakeAddress = current.StakeAddress
+			}
 			// retrieving balance
 			amt, err := ctx.Delegators.GetValidatorAmount(validator.Address)
 			if err != nil {
